@@ -192,14 +192,14 @@ Definition fA5 : bfun := bfun_of (h_s acache ex_stA) (slot_ref acache ex_stA 5).
 Definition fA7 : bfun := bfun_of (h_s acache ex_stA) (slot_ref acache ex_stA 7).
 
 Lemma ex_holdsA5 : holds acache ex_stA 5 fA5.
-Proof. exists (slot_ref acache ex_stA 5). split; [vm_compute; reflexivity | intros a; reflexivity]. Qed.
+Proof. exists (slot_ref acache ex_stA 5). split; [vm_compute; reflexivity | intros a; unfold fA5; reflexivity]. Qed.
 Lemma ex_holdsA7 : holds acache ex_stA 7 fA7.
-Proof. exists (slot_ref acache ex_stA 7). split; [vm_compute; reflexivity | intros a; reflexivity]. Qed.
+Proof. exists (slot_ref acache ex_stA 7). split; [vm_compute; reflexivity | intros a; unfold fA7; reflexivity]. Qed.
 
 Lemma ex_wfB : WF (h_s unit ex_stB).
 Proof. apply wf_b_spec. vm_compute. reflexivity. Qed.
 
-Lemma ex_wfA : WF (h_s acache ex_stA).
+Lemma ex_WFA : WF (h_s acache ex_stA).
 Proof. apply wf_b_spec. vm_compute. reflexivity. Qed.
 
 Lemma ex_nA : nlevels (h_s acache ex_stA) = 4%nat.
@@ -225,13 +225,13 @@ Lemma ex_holdsB4 : holds unit ex_stB 4 fA5.
 Proof.
   exists (slot_ref unit ex_stB 4). split; [exact ex_slotB4|].
   exact (bfun_eq_enum (h_s unit ex_stB) (h_s acache ex_stA) (slot_ref unit ex_stB 4) (slot_ref acache ex_stA 5)
-                      4%nat ex_wfB ex_wfA ex_nB ex_nA ex_enum4).
+                      4%nat ex_wfB ex_WFA ex_nB ex_nA ex_enum4).
 Qed.
 Lemma ex_holdsB5 : holds unit ex_stB 5 fA7.
 Proof.
   exists (slot_ref unit ex_stB 5). split; [exact ex_slotB5|].
   exact (bfun_eq_enum (h_s unit ex_stB) (h_s acache ex_stA) (slot_ref unit ex_stB 5) (slot_ref acache ex_stA 7)
-                      4%nat ex_wfB ex_wfA ex_nB ex_nA ex_enum5).
+                      4%nat ex_wfB ex_WFA ex_nB ex_nA ex_enum5).
 Qed.
 
 (** C08 / C01: the conjunction computed in the long-lived manager (after 24
@@ -259,7 +259,7 @@ Proof.
   - apply SpBin; [exact ex_holdsB4 | exact ex_holdsB5].
 Qed.
 
-(** what the two results actually are: 5 nodes each (3 inner + 2 terminals), different node ids *)
+(** what the two results actually are: 6 nodes each (4 inner + 2 terminals), different node ids *)
 Lemma ex_fresh_values :
   match stepA ex_stA (HBin OAnd 20 5 7), stepB ex_stB (HBin OAnd 6 4 5) with
   | Some a, Some b =>
@@ -267,5 +267,5 @@ Lemma ex_fresh_values :
      count_reach (h_s unit b) (E (slot_ref unit b 6)),
      ref_eqb (slot_ref acache a 20) (slot_ref unit b 6))
   | _, _ => (0, 0, true)
-  end = (5, 5, false).
+  end = (6, 6, false).
 Proof. vm_compute. reflexivity. Qed.
